@@ -76,6 +76,29 @@ func c11Grid(full bool) [][]byte {
 			}
 		}
 	}
+	// inconsistent frames whose key and extras are fully supplied: the parser gets as far as
+	// sizing the data buffer (key lengths near 65535 exercise the width of the length check)
+	for _, op := range []byte{0x01, 0x02, 0x03, 0x0e, 0x0f, 0x11, 0x12, 0x13, 0x19, 0x1a} {
+		for _, kl := range []uint16{65535, 65534, 65528, 65280, 32768, 300} {
+			for _, el := range []byte{0, 1, 4, 8, 9, 255} {
+				ke := uint32(kl) + uint32(el)
+				for _, total := range []uint32{0, 5, 16, ke - 1, 65535, uint32(kl)} {
+					if total >= ke {
+						continue
+					}
+					if !full && (kl != 65535 && kl != 300 || el == 9 || el == 255) {
+						continue
+					}
+					b := wire.BinHeader(op, kl, el, total, 0x0a0b0c0d)
+					body := make([]byte, int(ke)+16)
+					for i := range body {
+						body[i] = byte('a' + i%26)
+					}
+					out = append(out, append(b, body...))
+				}
+			}
+		}
+	}
 	return out
 }
 
